@@ -296,3 +296,22 @@ Proof.
   - intros e He; apply U, P, He.
   - intros t' H; apply L. intros e He; apply H, P, He.
 Qed.
+
+(* ---------- assignment targets ---------- *)
+Lemma target_step_s_iff t k r : target_step_s t k = Some r <-> TargetStep t k r.
+Proof.
+  split.
+  - destruct t, k; simpl; try discriminate; try (destruct it; try discriminate);
+      intro H; inversion H; subst; constructor.
+  - destruct 1; reflexivity.
+Qed.
+
+Lemma target_chain_s_iff ks : forall t r, target_chain_s t ks = Some r <-> TargetChain t ks r.
+Proof.
+  induction ks as [|k ks IH]; intros t r; simpl.
+  - split; [intro H; inversion H; constructor | inversion 1; reflexivity].
+  - split.
+    + destruct (target_step_s t k) eqn:E; [|discriminate]. intro H.
+      econstructor; [apply target_step_s_iff; exact E | apply IH; exact H].
+    + inversion 1; subst. apply target_step_s_iff in H3. rewrite H3. apply IH; assumption.
+Qed.
